@@ -60,13 +60,13 @@ def _worker(task):
             try: outs = thunk(ex)
             except symx.Unsupported as e:
                 rec['error'] = f'{label}: unsupported: {e}'; return
-            axioms = uni.axioms()
+            axioms = uni.axioms(); prover = discharge.Prover(axioms)
             for ob in ex.obls:
-                r = discharge.prove(axioms, list(ob.pc), ob.goal)
+                r = prover.prove(list(ob.pc), ob.goal)
                 rec['obligations'].append(dict(name=f'{label}.{ob.kind}#{ob.name.rsplit(".", 1)[-1]}', status=r.status, time=r.time, backend=r.backend, where=ob.where,
                                                solver_output=f'{r.backend}: {r.status}'))
             for i, (s, val) in enumerate(outs):
-                r = discharge.prove(axioms, list(s.pc), ex.truth(val) == meaning)
+                r = prover.prove(list(s.pc), ex.truth(val) == meaning)
                 o = dict(name=f'{label}.post.path{i}', status=r.status, time=r.time, backend=r.backend, solver_output=f'{r.backend}: {r.status}')
                 if r.status == 'refuted': o['replay'] = replay(vsrc, label, r, uni, x)
                 rec['obligations'].append(o)
